@@ -1,4 +1,5 @@
-"""C06 — BANE background/noise maps obey the estimator contract (AegeanTools/BANE.py: sigma_filter, sigmaclip).
+"""C06 — BANE background/noise maps obey the estimator contract (AegeanTools/BANE.py: sigma_filter, sigmaclip, filter_image,
+get_step_size; AegeanTools/CLI/BANE.py: main from the parsed options on).
 
 Decided: the index / dataflow contract of one stripe (contracts/bane.py): the loaded rows are the stripe plus half a box,
 both passes clip boxes of `data` at 3 sigma, EVERY pixel that enters a pass-2 (noise) box has had the interpolated
@@ -9,6 +10,11 @@ and for sigmaclip: empty input -> (nan, nan); otherwise the result is (mean, std
 finite input values, hence min <= mean <= max and 0 <= std <= max - min; a constant input gives (c, 0).
 From these and the assumed contracts of numpy mean/std (affine equivariance, range) and RegularGridInterpolator
 (bilinear, range preserving, exact for affine data) the algebraic clauses follow; they are cross-checked natively.
+filter_image: the estimator is asked with the image's shape (rows first) and the caller's settings (defaults: grid from the header,
+box = 6 grid steps, plane 0), the value handed back is the estimator's own pair of arrays, never touched by the file writing, and
+the files hold map / BSCALE under the image's header.  get_step_size: a square grid of the least integer >= 4 beam widths in
+pixels (16 without beam or pixel-scale keywords).  CLI: each parsed option reaches filter_image under its own keyword (the
+parser itself -- argparse -- is exercised natively).
 NOT decided: the stationary-Gaussian (statistical) clause.
 """
 import z3
@@ -237,12 +243,246 @@ def t_sigmaclip_affine(ctx):
     ctx.oblige("post", "sigmaclip.affine.mean_scales_and_shifts_std_scales_by_abs_k", And(m2 == k * m1 + c0, s2 == ite(k >= 0, k, -k) * s1))
 
 
+class MapArr(PyObj):
+    """one of the two maps returned by the estimator; only `map / scalar` is allowed and gives a NEW array"""
+
+    def __init__(self, name, derived=None):
+        self.name, self.derived = name, derived
+
+    def __repr__(self):
+        return "<%s>" % self.name
+
+    def binop_(self, ctx, op, other, swapped):
+        if op == 'truediv' and not swapped and self.derived is None:
+            return MapArr(self.name + "/s", derived=(self, other))
+        # anything else (in particular the in-place forms) changes or replaces the caller's result
+        ctx.ghost.setdefault('map_ops', []).append((self.name, op))
+        return self
+
+
+def t_filter_image(ctx):
+    """BANE.filter_image: the maps handed back are the estimator's own arrays, untouched, whether or not files are written;
+    the files hold map / BSCALE; the estimator is asked with the image's shape and the caller's settings"""
+    from pyvc.engine import SymDict, Opaque
+    n1, n2, naxis, n3 = (Sym(z3.Int(n)) for n in ('NAXIS1', 'NAXIS2', 'NAXIS', 'NAXIS3'))
+    ctx.assume(And(n1 >= 1, n2 >= 1, naxis >= 2, naxis <= 4, n3 >= 1))
+    has_bscale = ctx.fresh_bool('has_BSCALE')
+    bscale = Sym(z3.Real('BSCALE'), True)
+    ctx.assume(bscale != 0)
+    header = SymDict('header', items={'NAXIS1': n1, 'NAXIS2': n2, 'NAXIS': naxis, 'NAXIS3': n3}, maybe={'BSCALE': (has_bscale, bscale)})
+    writes, calls, gs_calls = [], [], []
+
+    def m_estimator(c, im_name, **kw):
+        calls.append((im_name, kw))
+        return (MapArr('bkg'), MapArr('rms'))
+
+    def m_get_step(c, h):
+        gs_calls.append(h)
+        g0, g1 = Sym(z3.Int('default_step0')), Sym(z3.Int('default_step1'))
+        c.assume(And(g0 >= 1, g1 >= 1))
+        return (g0, g1)
+
+    class HDU(PyObj):
+        def __init__(s, data):
+            s.f = {'data': data, 'header': None}
+
+        def getattr_(s, c, name):
+            return s.f[name]
+
+        def setattr_(s, c, name, v):
+            s.f[name] = v
+
+    def m_compress(c, hdulist, factor, outfile):
+        hdu = hdulist[0] if isinstance(hdulist, list) else c.interp.getitem(hdulist, 0)
+        writes.append((hdu.f['data'], hdu.f['header'], outfile, ('compress', factor)))
+
+    def m_write(c, data, hdr, outfile):
+        writes.append((data, hdr, outfile, None))
+    g = {'fits': Namespace('fits', getheader=Model(lambda c, fn, **k: header), PrimaryHDU=Model(lambda c, d=None, **k: HDU(d)),
+                           HDUList=Model(lambda c, l: list(l))),
+         'get_step_size': Model(m_get_step), 'filter_mc_sharemem': Model(m_estimator), 'write_fits': Model(m_write),
+         'compress': Model(m_compress), 'logging': Namespace('logging'),
+         'copy': Namespace('copy', deepcopy=Model(lambda c, x: x.clone() if hasattr(x, 'clone') else x)),
+         'os': Namespace('os', path=Namespace('path', expanduser=Model(lambda c, x: x))),
+         '__version__': 'v', '__date__': 'd'}
+    # arguments: every optional one either left out (None) or an arbitrary value
+    out_base = 'OUT' if ctx.free_branch() else None
+    step = (Sym(z3.Int('step0')), Sym(z3.Int('step1'))) if ctx.free_branch() else None
+    box = (Sym(z3.Int('box0')), Sym(z3.Int('box1'))) if ctx.free_branch() else None
+    if step is not None:
+        ctx.assume(And(step[0] >= 1, step[1] >= 1))
+    compressed = ctx.free_branch()
+    mask = ctx.free_branch()
+    cube = Sym(z3.Int('cube_index')) if ctx.free_branch() else None
+    if cube is not None:
+        ctx.assume(cube >= 0)
+    cores, nslice = Opaque('cores'), Opaque('nslice')
+    out = run_function(ctx, FILE, 'filter_image', ['IMG', out_base],
+                       {'step_size': step, 'box_size': box, 'cores': cores, 'mask': mask, 'compressed': compressed, 'nslice': nslice,
+                        'cube_index': cube}, globals_=g)
+    ctx.oblige("safe", "filter_image.no_exception", out.kind == 'return')
+    if out.kind != 'return':
+        return
+    cidx = cube if cube is not None else 0
+    if not calls:
+        # the only way out without estimating: a plane index beyond the cube
+        ctx.oblige("post", "filter_image.gives_up_only_for_a_plane_index_beyond_the_cube",
+                   And(naxis > 2, cidx >= n3) if out.value is None and not writes else False)
+        return
+    ctx.oblige("post", "filter_image.one_estimator_call", len(calls) == 1)
+    ctx.oblige("post", "filter_image.plane_index_inside_the_cube", Implies(naxis > 2, cidx < n3))
+    im_name, kw = calls[0]
+    S = step if step is not None else ((Sym(z3.Int('default_step0')), Sym(z3.Int('default_step1'))) if gs_calls else None)
+    ctx.oblige("post", "filter_image.default_step_comes_from_the_image_header", (step is not None) or (len(gs_calls) == 1 and gs_calls[0] is header))
+    ok_kw = set(kw) == {'step_size', 'box_size', 'cores', 'shape', 'nslice', 'domask', 'cube_index'}
+    ctx.oblige("post", "filter_image.estimator_gets_every_setting", ok_kw and im_name == 'IMG')
+    if not ok_kw or S is None:
+        return
+    ctx.oblige("post", "filter_image.estimator_gets_the_image_shape_rows_first",
+               isinstance(kw['shape'], tuple) and len(kw['shape']) == 2 and And(kw['shape'][0] == n2, kw['shape'][1] == n1))
+    ctx.oblige("post", "filter_image.estimator_gets_the_callers_cores_stripes_mask_and_plane",
+               kw['cores'] is cores and kw['nslice'] is nslice and kw['domask'] is mask and
+               (kw['cube_index'] is cube if cube is not None else kw['cube_index'] == 0))
+    st = kw['step_size']
+    ok_t = isinstance(st, tuple) and len(st) == 2
+    mn = ite(S[0] <= S[1], S[0], S[1])
+    ctx.oblige("post", "filter_image.grid_is_the_callers_or_the_default_made_square_only_for_compressed_output",
+               ok_t and (And(st[0] == ite(S[0] == S[1], S[0], mn), st[1] == ite(S[0] == S[1], S[1], mn)) if compressed
+                         else And(st[0] == S[0], st[1] == S[1])))
+    bx = kw['box_size']
+    ok_b = isinstance(bx, tuple) and len(bx) == 2
+    ctx.oblige("post", "filter_image.box_is_the_callers_or_six_grid_steps",
+               ok_b and (And(bx[0] == box[0], bx[1] == box[1]) if box is not None else And(bx[0] == 6 * S[0], bx[1] == 6 * S[1])))
+    # the value handed back: the estimator's own arrays, untouched
+    v = out.value
+    ok_v = isinstance(v, tuple) and len(v) == 2 and isinstance(v[0], MapArr) and isinstance(v[1], MapArr) and \
+        v[0].name == 'bkg' and v[1].name == 'rms' and v[0].derived is None and v[1].derived is None
+    ctx.oblige("post", "filter_image.returns_the_estimated_background_and_noise_in_that_order", ok_v)
+    ctx.oblige("post", "filter_image.returned_maps_are_not_modified_by_writing_files", not ctx.ghost.get('map_ops'))
+    # files
+    if out_base is None:
+        ctx.oblige("post", "filter_image.no_file_without_an_output_name", not writes)
+        return
+    names = sorted(w[2] for w in writes if isinstance(w[2], str))
+    ctx.oblige("post", "filter_image.writes_exactly_bkg_and_rms_files", len(writes) == 2 and names == ['OUT_bkg.fits', 'OUT_rms.fits'])
+    if len(writes) != 2:
+        return
+    k = ite(has_bscale, bscale, 1.0)
+    for data, hdr, name, how in writes:
+        want = 'bkg' if str(name).endswith('_bkg.fits') else 'rms'
+        ok_d = isinstance(data, MapArr) and data.derived is not None and data.derived[0].name == want
+        ctx.oblige("post", "filter_image.%s_file_holds_the_map_divided_by_bscale_iff_present" % want,
+                   And(Sym(data.derived[1], True) == k) if ok_d and not isinstance(data.derived[1], Sym) else (data.derived[1] == k if ok_d else False))
+        ok_h = isinstance(hdr, SymDict) and all(hdr.vals.get(kk) is header.vals[kk] for kk in ('NAXIS1', 'NAXIS2', 'NAXIS', 'NAXIS3', 'BSCALE')) \
+            and hdr.present.get('BSCALE') is header.present.get('BSCALE')
+        ctx.oblige("post", "filter_image.%s_file_carries_the_image_header" % want, ok_h)
+        if compressed:
+            ctx.oblige("post", "filter_image.%s_file_compressed_by_the_grid_step" % want,
+                       how is not None and ok_t and how[1] == st[0])
+        else:
+            ctx.oblige("post", "filter_image.%s_file_written_uncompressed" % want, how is None)
+
+
+def t_get_step_size(ctx):
+    """BANE.get_step_size: a square grid of n >= 1 pixels with n the least integer >= 4 beam widths / pixel width
+    (16 without beam keywords), whichever of CDELT / CD the header carries"""
+    from pyvc.engine import SymDict
+    names = ('BMAJ', 'BMIN', 'CDELT1', 'CDELT2', 'CD1_1', 'CD2_2', 'CD1_2', 'CD2_1')
+    v = {n: Sym(z3.Real(n), True) for n in names}
+    has = {n: ctx.fresh_bool('has_' + n) for n in names}
+    # a usable header: positive beam, non-degenerate pixel scale in the keywords that are present
+    ctx.assume(And(v['BMAJ'] * v['BMIN'] != 0, v['CDELT1'] * v['CDELT2'] != 0, v['CD1_1'] * v['CD2_2'] != 0))
+    # CDELT2 accompanies CDELT1, CD2_2 accompanies CD1_1 (FITS WCS keyword pairs)
+    ctx.assume(And(Implies(has['CDELT1'], has['CDELT2']), Implies(has['CD1_1'], has['CD2_2'])))
+    header = SymDict('header', maybe={n: (has[n], v[n]) for n in names})
+    out = run_function(ctx, FILE, 'get_step_size', [header], globals_={'np': lib.std_np(), 'logging': Namespace('logging')})
+    ctx.oblige("safe", "get_step_size.no_exception_on_a_usable_header", out.kind == 'return')
+    if out.kind != 'return':
+        return
+    r = out.value
+    ok = isinstance(r, tuple) and len(r) == 2
+    ctx.oblige("post", "get_step_size.gives_a_pair", ok)
+    if not ok:
+        return
+    ctx.oblige("post", "get_step_size.square_grid_of_at_least_one_pixel", And(r[0] == r[1], r[0] >= 1), timeout_ms=30000)
+    ctx.oblige("post", "get_step_size.sixteen_pixels_without_beam_keywords", Implies(Not(And(has['BMAJ'], has['BMIN'])), r[0] == 16))
+    ctx.oblige("post", "get_step_size.sixteen_pixels_without_a_pixel_scale",
+               Implies(And(has['BMAJ'], has['BMIN'], Not(has['CDELT1']), Not(has['CD1_1'])), r[0] == 16), timeout_ms=30000)
+    # n is the least integer with n * pixel >= 4 * beam (squared to stay polynomial): n^2 |pix area| >= 16 |beam area| > (n-1)^2 |pix area|
+    ab = lambda x: ite(x >= 0, x, -x)
+    beam2 = ab(v['BMAJ'] * v['BMIN'])
+    pix2 = ite(has['CDELT1'], ab(v['CDELT1'] * v['CDELT2']), ab(v['CD1_1'] * v['CD2_2']))
+    n = r[0]
+    ctx.oblige("post", "get_step_size.least_integer_covering_four_beam_widths",
+               Implies(And(has['BMAJ'], has['BMIN'], Or(has['CDELT1'], has['CD1_1'])),
+                       And(n * n * pix2 >= 16 * beam2, (n - 1) * (n - 1) * pix2 < 16 * beam2)), timeout_ms=60000)
+
+
+CLI_FILE = "AegeanTools/CLI/BANE.py"
+
+
+def t_cli(ctx):
+    """CLI/BANE.py main, from the parsed options on: every option reaches filter_image under its own keyword"""
+    import ast
+    from pyvc.engine import run_stmts, find_function, Opaque
+    fn = find_function(CLI_FILE, 'main')
+    a = next((k for k, st in enumerate(fn.body) if isinstance(st, ast.Assign) and ast.unparse(st.targets[0]) == 'options'), None)
+    if a is None:
+        raise Undecided("CLI main: `options = ...` not found")
+    stmts = fn.body[a + 1:]
+    given_out = ctx.free_branch()
+    marks = {k: Opaque('option ' + k) for k in ('step_size', 'box_size', 'cores', 'mask', 'compress', 'stripes', 'cube_index')}
+    opts = Obj('options', cite=False, image='IMG.fits', debug=ctx.free_branch(), out_base='OUT' if given_out else None,
+               clobber=ctx.free_branch(), **marks)
+    exists = {}
+
+    def m_exists(c, path):
+        if path not in exists:
+            exists[path] = c.free_branch()
+        return exists[path]
+    calls = []
+    logging = Namespace('logging', DEBUG=10, INFO=20, basicConfig=Model(lambda c, **k: None), info=Model(lambda c, *a: None),
+                        error=Model(lambda c, *a: None))
+    g = {'os': Namespace('os', path=Namespace('path', exists=Model(m_exists), splitext=Model(lambda c, x: (x[:-5], x[-5:])))),
+         'BANE': Namespace('BANE', logging=logging, __version__='v', __date__='d',
+                           filter_image=Model(lambda c, *a, **k: calls.append((a, k)))),
+         '__citation__': 'cite', 'print': Model(lambda c, *a: None)}
+    out = run_stmts(ctx, CLI_FILE, 'main', stmts, {'options': opts, 'parser': Namespace('parser')}, globals_=g,
+                    region_desc="from the parsed options to the end")
+    ctx.oblige("safe", "cli.no_exception", out.kind in ('return', 'fallthrough'))
+    if out.kind not in ('return', 'fallthrough'):
+        return
+    ob = 'OUT' if given_out else 'IMG'
+    # the property is about the maps: it obliges a run whenever the image exists and nothing forbids overwriting; what
+    # --noclobber does when some output exists, and the exit code for a missing image, are the CLI's own business
+    if not exists.get('IMG.fits', False):
+        ctx.oblige("post", "cli.missing_image_runs_nothing", not calls)
+        return
+    may_skip = opts.fields['clobber'] is False and (exists.get(ob + '_bkg.fits') or exists.get(ob + '_rms.fits'))
+    if may_skip and not calls:
+        return
+    ctx.oblige("post", "cli.runs_the_filter_once_and_exits_0", len(calls) == 1 and out.value == 0)
+    if len(calls) != 1:
+        return
+    args, kw = calls[0]
+    want = {'im_name': 'IMG.fits', 'out_base': ob, 'step_size': marks['step_size'], 'box_size': marks['box_size'], 'cores': marks['cores'],
+            'mask': marks['mask'], 'compressed': marks['compress'], 'nslice': marks['stripes'], 'cube_index': marks['cube_index']}
+    # bind positionals against the real signature of filter_image
+    sig = [x.arg for x in find_function(FILE, 'filter_image').args.args]
+    bound = dict(zip(sig, args))
+    bound.update(kw)
+    for k_, v_ in want.items():
+        got = bound.get(k_, '<missing>')
+        ctx.oblige("post", "cli.option_%s_reaches_the_filter" % k_, (got is v_) if isinstance(v_, Opaque) else (got == v_))
+
+
 def t_stripe(ctx):
     explore_sigma_filter(ctx, "C06")
 
 
 def verify(S):
-    for name, fn in (("BANE.sigma_filter", t_stripe), ("BANE.sigmaclip", t_sigmaclip), ("BANE.sigmaclip[affine]", t_sigmaclip_affine)):
+    for name, fn in (("BANE.sigma_filter", t_stripe), ("BANE.sigmaclip", t_sigmaclip), ("BANE.sigmaclip[affine]", t_sigmaclip_affine),
+                     ("BANE.filter_image", t_filter_image), ("BANE.get_step_size", t_get_step_size), ("CLI.BANE.main", t_cli)):
         if S.only and S.only not in name:
             continue
         ctx = Ctx(S, name)
